@@ -466,7 +466,7 @@ Proof.
   - apply G_same. eapply on_new_worker_same; exact Hc.
   - destruct (find_proc _ w); [|discriminate]. eapply G_on_remove_worker; eassumption.
   - eapply G_submit_array; eassumption.
-  - eapply G_submit_graph; eassumption.
+  - destruct (bad_graph_rq _ _); [inversion Hc; subst; apply G_same; reflexivity|]. eapply G_submit_graph; eassumption.
   - eapply G_open; eassumption.
   - eapply G_close; eassumption.
   - eapply G_cancel; eassumption.
